@@ -62,7 +62,7 @@ KNOWN_D18 = "C15:second-trainer-redirects-cell-monitors"
 KEY_XL = "C15:cross-layer-alias"
 # the model's alias search: False = `Observable.add_monitor` as it stands (the "other layer" test never skips),
 # True = that test repaired.  Flip to True once /repo carries the repair.
-LAYER_FILTER = False
+LAYER_FILTER = True
 MNAMES = ["trace_post", "spike_post", "trace_pre", "spike_pre", "elig_post", "elig_pre", "u0", "u1"]
 SELS = {"n0": "neuron.spike", "n1": "neuron.voltage", "c0": "connection.synspike", "c1": "connection.syncurrent",
         "cm": "monitors", "bad": "nonexistent.thing"}
